@@ -81,7 +81,7 @@ ASSUMPTIONS = [
     "create_time_dim_from_array(samplerate=rate); spectrogram options other than window/hop are the defaults",
 ]
 
-TE = {"1": F(1), "2": F(2), "10": F(10), "1/2": F(1, 2), "4": F(4), "5": F(5)}
+TE = {"1": F(1), "2": F(2), "10": F(10), "1/2": F(1, 2), "4": F(4), "5": F(5), "3/2": F(3, 2)}
 CHANNELS = [1, 2, 3]
 DEN = 16  # file-time lattice 1/16 s
 EPS = F(1, 2 ** 20)
@@ -626,11 +626,15 @@ def blocks(tier):
         for te in c["te"]:
             if te_ok(rate, te):
                 out.append({"space": "clip_boundary", "tier": tier, "rate": rate, "te": te})
+    # a file rate x expansion that is not whole (11025 Hz x 3/2 = 16537.5): the recording's samplerate is the int Recording.from_file
+    # stores (16537), and every frame time / count follows THAT rate
+    out.append({"space": "clip_odd_te", "tier": tier})
     out.append({"space": "rewrite", "tier": tier})
     out.append({"space": "relocate", "tier": tier})
     # one source of more than 2^20 samples per direction (beyond any plausible 'long signal' threshold of an implementation)
     out.append({"space": "resample_long", "src": 8000, "tgt": 32000})
     out.append({"space": "resample_long", "src": 8000, "tgt": 2000})
+    out.append({"space": "resample_long", "src": 384000, "tgt": 44100, "n": 1920000})  # an unusual rate pair (ratio 147/1280), 5 s
     # ten seconds at rates r for which 1 / (1 / r) is one ulp below r (truncating the rate to an int then loses a whole Hz): the frame
     # times must stay within one step of first + i x step over all ~16000 frames
     for rate in (12500, 25000, 50000):
@@ -665,10 +669,17 @@ def cases_of(block):
             for ch in CHANNELS:
                 for i, j in clip_pairs(pts):
                     yield clip_case(rate, frames, ch, te, pts[i], pts[j])
+    elif sp == "clip_odd_te":
+        rate, frames, te = 11025, 64, "3/2"
+        sr = M.recording_rate(rate, TE[te])
+        pts = [F(k, sr) for k in (0, 1, 7, 32, 40, 63, 64, 70)] + [F(2 * k + 1, 2 * sr) for k in (0, 7, 32, 63)]
+        pts = sorted(set(pts))
+        for i, j in clip_pairs(pts):
+            yield clip_case(rate, frames, 1, te, pts[i], pts[j])
     elif sp == "spectrogram_long":
         yield {"space": "spectrogram", "rate": block["rate"], "n": int(10.5 * block["rate"]), "ch": 1, "first": 0, "window": "16", "hop": "8"}
     elif sp == "resample_long":
-        yield {"space": "resample", "src": block["src"], "tgt": block["tgt"], "n": 2 ** 20 + 1, "ch": 1, "first": 0}
+        yield {"space": "resample", "src": block["src"], "tgt": block["tgt"], "n": block.get("n", 2 ** 20 + 1), "ch": 1, "first": 0}
     elif sp == "relocate":
         for a, b in itertools.permutations(REWRITE_PARAMS[:3], 2):
             for form in ("str", "Path"):
